@@ -58,7 +58,7 @@ def r06_1(run, model, mir):
                        witness="switch cases are emitted in hash order")
 
 
-def case_table(run, f):
+def case_table(run, f, model=None):
     """for compile_int_case_impl / compile_string_case: per case (literal, wildcard, absent) the set of sinks and how"""
     loops = [l for l in S.find(f.body, "For") if "rows" in S.idents(l["iter"])]
     if not loops:
@@ -67,27 +67,48 @@ def case_table(run, f):
     par = S.Parents(loop)
     table = {}
 
-    def sinks(block, label):
+    helpers = {g.name: g for g in (model.scope_fns(f) if model is not None else []) if g is not f and g.body is not None}
+
+    def sinks(block, label, par=par, ren=None, depth=0):
+        """{sink: 'unconditional' | 'conditional'} for the pushes below `block`; a same-file helper that is handed the row vectors
+        (`push_unconstrained_row(&mut value_rows, &mut fallback_rows, &mut default_rows, row)`) is read in place, its parameters
+        standing for the caller's vectors"""
+        ren = ren or {}
         out = {}
         for c in S.walk(block):
+            def guarded(node):
+                cond, loop_over = False, None
+                for a in ([] if node is block else par.ancestors(node)):
+                    if a is block:
+                        break
+                    if a["k"] in ("If", "Match"):
+                        cond = True
+                    if a["k"] == "For":
+                        loop_over = S.norm_ws(run.facts.text(f.file, a["iter"]["sp"]))
+                return cond, loop_over
+            if c["k"] == "Call" and depth == 0 and S.callee_name(c) in helpers:
+                h = helpers[S.callee_name(c)]
+                ps = [p_["pat"].get("name") for p_ in h.params() if not p_["self"]]
+                m = {}
+                for pn, a in zip(ps, c["args"]):
+                    while a["k"] in ("Ref", "Paren"):
+                        a = a["expr"]
+                    if pn and a["k"] == "Path" and len(a["segs"]) == 1:
+                        m[pn] = a["segs"][0]
+                cond, _lo = guarded(c)
+                for tgt, how in sinks(h.body, label, S.Parents(h.body), m, 1).items():
+                    out[tgt] = "conditional" if (cond or how == "conditional") else "unconditional"
+                continue
             if c["k"] != "MethodCall" or c["method"] != "push":
                 continue
             recv = c["recv"]
             tgt = None
             if S.is_path(recv):
-                tgt = recv["segs"][0]
-            # conditional? any If/Match between the push and the case block
-            cond = False
-            loop_over = None
-            for a in par.ancestors(c):
-                if a is block:
-                    break
-                if a["k"] in ("If",):
-                    cond = True
-                if a["k"] == "Match":
-                    cond = True
-                if a["k"] == "For":
-                    loop_over = S.norm_ws(run.facts.text(f.file, a["iter"]["sp"]))
+                tgt = ren.get(recv["segs"][0], recv["segs"][0])
+            cond, loop_over = guarded(c)
+            if loop_over:
+                for pn, an in ren.items():
+                    loop_over = re.sub(r"\b" + re.escape(pn) + r"\b", an, loop_over)
             if loop_over and "value_rows" in loop_over:
                 tgt = "each value_rows bucket"
             out[tgt] = "conditional" if cond else "unconditional"
@@ -119,7 +140,7 @@ def r06_2(run, model):
     tabs = {}
     for name in ("compile_int_case_impl", "compile_string_case"):
         f = model.fn(name, CM)
-        t = case_table(run, f)
+        t = case_table(run, f, model)
         if not t or "literal" not in t:
             run.ob("R06.2", f"{name}|case structure", False, site(CM, f.node["sp"]), "literal / wildcard / absent-column cases not found")
             continue
@@ -347,6 +368,17 @@ def r06_8(run, model):
                     continue
                 par = S.Parents(els)
                 pushes = [c for c in S.walk(els) if c["k"] == "MethodCall" and c["method"] == "push"]
+                # a same-file helper that is handed the sub-matrices and pushes the row onto each of them without a test of its own
+                # (`push_unconstrained_row(&mut value_rows, &mut fallback_rows, &mut default_rows, row)`) is the pushes it contains
+                for c in S.walk(els):
+                    if c["k"] == "Call":
+                        hs = [g for g in model.scope_fns(f) if g is not f and g.name == S.callee_name(c) and g.body is not None]
+                        if hs:
+                            hp = S.Parents(hs[0].body)
+                            inner = [x for x in S.walk(hs[0].body) if x["k"] == "MethodCall" and x["method"] == "push"]
+                            if inner and not any(a["k"] in ("If", "Match") for x in inner for a in hp.ancestors(x)) and \
+                                    not any(x["k"] in ("Continue", "Break", "Return") for x in S.walk_no_closures(hs[0].body)):
+                                pushes.append(c)
                 exits = [x["k"] for x in S.walk_no_closures(els) if x["k"] in ("Continue", "Break", "Return")]
                 cond = [c for c in pushes if any(a["k"] in ("If", "Match") for a in par.ancestors(c))]
                 ok = bool(pushes) and not exits and not cond
